@@ -224,6 +224,7 @@ private:
   bool _parsing_attribute;
 
   bool _start_of_line;
+  bool _start_of_line_before;
   int _unget;
 
   int _last_c;
